@@ -207,7 +207,7 @@ func plans0(thorough bool) map[string]PropertyPlan {
 			Monitors: func(w *World, sc *Scenario) []Monitor {
 				return []Monitor{ExposureMonitor{}, StepMonitor{}, BatchStatusMonitor{}, TrafficOrderMonitor{}, VoidMonitor{}, &ExitMonitor{Base: CaptureBaseline(w, sc)}, FinalizerMonitor{}, PanicMonitor{}, OnceMonitor{}, &DiffMonitor{S: NewDiffShared()}}
 			}},
-		"C09": {Scenarios: []string{"Q01", "Q01b", "Q05", "Q08"}, Actions: []string{"jump(-1)", "jump(0)", "jump(1)", "jump(2)", "jump(3)", "jump(4)", "jump(2147483647)", "dropLastStep", "deleteRollout", "disable"}, MaxUser: 2,
+		"C09": {Scenarios: []string{"Q01", "Q01b", "Q05", "Q08"}, Actions: []string{"jump(-1)", "jump(0)", "jump(1)", "jump(2)", "jump(3)", "jump(4)", "jump(2147483647)", "dropLastStep", "switchStyle", "deleteRollout", "disable"}, MaxUser: 2,
 			FreeQueues: true, StateCap: capQ, Monitors: func(w *World, sc *Scenario) []Monitor { return []Monitor{PanicMonitor{}} }},
 	}
 }
